@@ -231,7 +231,7 @@ Model linear_shadow(const Model& m) {
   return s;
 }
 
-struct CUser { const Model* m; WriterOpts w; };
+struct CUser { const Model* m; WriterOpts w; const std::vector<std::string>* col = nullptr; const std::vector<std::string>* row = nullptr; };
 const Model& cm_of(void* u) { return *static_cast<CUser*>(u)->m; }
 extern "C" {
 static NLHeader_C c_header(void* u) {
@@ -280,6 +280,8 @@ static void c_sufs(void* u, void* api) {
     }
   }
 }
+static void c_colnames(void* u, void* api) { for (auto& n : *static_cast<CUser*>(u)->col) NLW2_WriteName(api, n.c_str()); }
+static void c_rownames(void* u, void* api) { for (auto& n : *static_cast<CUser*>(u)->row) NLW2_WriteName(api, n.c_str()); }
 }  // extern "C"
 
 // ------------------------------------------------------------------ feed history (expected items)
@@ -586,6 +588,11 @@ sim::RunResult run(const Json& sc) {
       const std::string enc = wc.binary ? "c-feeder-binary" : "c-feeder-text";
       const std::string base = sim::scratch_dir() + (wc.binary ? "cb" : "ct");
       CUser cu{&ms, wc};
+      // names through the C table: the shadow has no logical constraints, their row names are left out
+      std::vector<std::string> rows_s;
+      for (size_t i = 0; i < rownames.size(); ++i) if (i < m.cons.size() || i >= m.cons.size() + m.lcons.size()) rows_s.push_back(rownames[i]);
+      const bool c_col = have_col && !colnames.empty(), c_row = have_row && !rows_s.empty();
+      cu.col = &colnames; cu.row = &rows_s;
       int rc = 0; std::string werr, wexc;
       SimRun sw = sim_session(nofaults, 500000, [&] {
         try {
@@ -599,6 +606,8 @@ sim::RunResult run(const Json& sc) {
           f.InitialGuessesNNZ = c_x0nnz; f.FeedInitialGuesses = c_x0;
           f.InitialDualGuessesNNZ = c_d0nnz; f.FeedInitialDualGuesses = c_d0;
           f.FeedSuffixes = c_sufs;
+          if (c_col) { f.want_col_names_ = 1; f.FeedColNames = c_colnames; }
+          if (c_row) { f.want_row_and_obj_names_ = 1; f.FeedRowAndObjNames = c_rownames; }
           NLW2_NLUtils_C u = NLW2_MakeNLUtils_C_Default();
           NLW2_NLSolver_C cs = NLW2_MakeNLSolver_C(&u);
           NLW2_SetFileStub_C(&cs, base.c_str());
@@ -624,7 +633,30 @@ sim::RunResult run(const Json& sc) {
       if (!out.viol_class.empty()) v.set(out.viol_class, out.viol_key, "recording checker on " + enc + " output: " + out.viol_detail);
       Expect ex(ms);
       mp::NLHeader hx = make_header(ms, wc);
+      if (c_col) for (auto& n : colnames) hx.max_var_name_len = std::max(hx.max_var_name_len, (int)n.size());
+      if (c_row) for (auto& n : rows_s) hx.max_con_name_len = std::max(hx.max_con_name_len, (int)n.size());
       ex.build(hx, wc);
+      {
+        struct NF { const char* ext; bool given; const std::vector<std::string>* want; } nf[2] = {{".col", c_col, &colnames}, {".row", c_row, &rows_s}};
+        for (auto& f : nf) {
+          std::string content;
+          bool exists = sim::read_file(base + f.ext, content);
+          if (!f.given) {
+            if (exists && !content.empty()) v.set("STALE_NAMES", std::string(f.ext + 1) + "/" + enc, std::string("no names were fed for ") + f.ext + " but the file exists after NLW2_LoadNLFeed2_C: '" + content.substr(0, 60) + "'");
+            continue;
+          }
+          if (!exists) { v.set("NAMES_MISSING", std::string(f.ext + 1) + "/" + enc, std::string(f.ext) + " not written although names were fed"); continue; }
+          try {
+            mp::NameProvider np(base + f.ext, "_gen", f.want->size());
+            if (np.number_read() != f.want->size()) v.set("NAMES_MISMATCH", std::string(f.ext + 1) + "-count/" + enc, std::string(f.ext) + ": fed " + std::to_string(f.want->size()) + " names, read " + std::to_string(np.number_read()));
+            else for (size_t i = 0; i < f.want->size(); ++i) {
+              fmt::StringRef gotn = np.name(i);
+              if (std::string(gotn.data(), gotn.size()) != (*f.want)[i]) { v.set("NAMES_MISMATCH", std::string(f.ext + 1) + "/" + enc, std::string(f.ext) + " name " + std::to_string(i) + ": fed '" + (*f.want)[i] + "' read '" + std::string(gotn.data(), gotn.size()) + "'"); break; }
+            }
+            bump(st, "c_feeder.names_compared");
+          } catch (const std::exception& e) { v.set("NAMES_MISMATCH", std::string(f.ext + 1) + "-unreadable/" + enc, std::string(f.ext) + " written through the C feeder cannot be read back: " + e.what()); }
+        }
+      }
       for (auto& kv : ex.items) {
         auto it = out.items.find(kv.first);
         if (it == out.items.end()) { v.set("ITEM_MISSING", item_kind(kv.first) + "/" + enc, "fed item " + kv.first + " = [" + kv.second.substr(0, 200) + "] never notified by the reader (" + enc + ")"); break; }
